@@ -108,6 +108,9 @@ def run_eq(vec, emb, pool):
             x[k] = x[k] + 1
     elif what == "span":
         other["hi"] = base["hi"] + 1
+    elif what == "type" and not base["ents"]:
+        # an empty tier of the other type, everything else equal
+        other = dict(base, kind="P" if base["kind"] == "I" else "I")
     elif what == "type":
         if base["kind"] == "I":
             other = {"kind": "P", "name": base["name"], "lo": base["lo"], "hi": base["hi"], "ents": [{"t": x["s"], "l": x["l"]} for x in base["ents"]]}
@@ -210,8 +213,10 @@ def rand_query_vectors(n, seed):
             out.append({"op": op, "args": {"ivs": ivs, "lo": lo, "hi": hi}})
         elif op == "eq":
             what = rng.choice(["none", "name", "label", "count", "timestamp", "span", "type"])
-            if what in ("label", "count", "timestamp", "type") and not pre["ents"]:
+            if what in ("label", "count", "timestamp") and not pre["ents"]:
                 continue
+            if what == "type" and rng.random() < 0.4:
+                pre["ents"] = []
             out.append({"op": op, "pre": pre, "args": {"what": what, "level": rng.choice(["tier", "tg"])}})
         else:
             what = rng.choice(["none", "none", "span_mismatch", "out_of_span", "below_span", "out_of_order"])
